@@ -709,7 +709,13 @@ def run_row_module(ck, st, tree, d, mode, mname, inf, part, refsrc, fmap):
                 if not r3.crashes and not r3.mismatches and r3.n == 0:
                     continue
                 if f['op'] == 'div':
-                    # the quotient does not fit the type that holds it: outside the statement, outcome recorded only
+                    # the quotient does not fit the type that holds it: OverflowError or any other non-crashing outcome is
+                    # accepted and recorded; killing the process is not
+                    for c in r3.crashes:
+                        ck.discrepancy(classify(f, mode, pp, ['ok', ['int', '?']], 'crash', hazard=True),
+                                       '%s on %r: the quotient does not fit, compiled code crashed (%s)' % (describe(f), pp, c['kind']),
+                                       witness(f, mode, pp, 'OverflowError or any non-crashing outcome', c['kind'],
+                                               {'stderr': c['stderr'][-1500:]}))
                     if r3.crashes:
                         o = r3.crashes[0]['kind']
                     elif r3.mismatches:
@@ -894,6 +900,6 @@ def main(ck):
         assumptions=['Python big-int // and % define the floor quotient and remainder; C99 6.5.5 truncation defines cdivision',
                      'x86-64 / gcc: char is signed, long is 64 bit; generated modules built with -O0, sweep modules with -O2',
                      'operands are generated per declared result type only (no signed operand converted to unsigned), DESIGN C03 FA',
-                     'MIN // -1 (quotient does not fit) is outside the statement: outcomes recorded under '
-                     'outside_statement_quotient_does_not_fit, never judged; with cdivision=True MIN / -1, MIN % -1 and a zero '
-                     'divisor are C undefined behaviour and are not executed'])
+                     'MIN // -1 (quotient does not fit): OverflowError or any non-crashing outcome is accepted (recorded under '
+                     'outside_statement_quotient_does_not_fit), a crash alarms; MIN % -1 == 0 is demanded; with cdivision=True '
+                     'MIN / -1, MIN % -1 and a zero divisor are C undefined behaviour and are not executed'])
